@@ -203,6 +203,15 @@ Definition exec (op : N) (args : list ans) (st : dstate) : dstate * ans :=
                     (AList [ANum (s_trie_blocks a - 1); ANum (blen (a_pages a));
                             ANum (count_if (fun x => snd x) (a_pages a));
                             ANum (s_trie_blocks a - 1 - blen (a_known a))]))
+  | 46 =>
+      (* page degree figures: [indegree; outdegree; degree; weighted indegree; weighted outdegree; weighted degree] *)
+      let figs (pl : bytes -> bool -> bool -> bool -> list (bytes * bytes * N)) :=
+          let sumw (l : list (bytes * bytes * N)) := fold_left (fun acc x => acc + snd x) l 0 in
+          let i := pl (g_bytes A0) true false false in
+          let o := pl (g_bytes A0) false false true in
+          let d := pl (g_bytes A0) true true true in
+          AList [ANum (blen i); ANum (blen o); ANum (blen d); ANum (sumw i); ANum (sumw o); ANum (sumw d)] in
+      (st, both (figs (fun l x y z => page_links l x y z m)) (figs (fun l x y z => s_page_links l x y z a)))
   | 40 => (st, both (a_list ABytes (lru_variations (g_bytes A0))) ANone)
   | 41 => (st, both (match find (lru_iter (g_bytes A0)) (tr m) with
                      | Some d => AList [ANum 1; ABytes (lru_at (addr d) m)]
